@@ -101,3 +101,94 @@ package net
 //@ lemma[C01] hdr_injective(d [int]int, p int, a Header, b Header): hdrenc(d, p, a) && hdrenc(d, p, b) ==> a == b
 //@   using hdr_roundtrip(d, p, a), hdr_roundtrip(d, p, b)
 //@ lemma[C01] frame_concat(p int, size1 int, size2 int): 0 <= size1 && 0 <= size2 ==> (p + 28 + size1) + 28 + size2 == p + (28 + size1) + (28 + size2)
+
+// ---- endpoint handler table (C17)
+// hclosed counts completed Handler.closeWith calls; chclosed: the channel has been closed;
+// chowned: the queue is the consumer of a live handler (queues are not shared between handlers);
+// hslot / chslot: the table slot a live handler / its queue is registered in.
+//@ ghostfield hclosed int
+//@ ghostfield chclosed bool
+//@ ghostfield chowned bool
+//@ ghostfield hslot int
+//@ ghostfield chslot int
+
+// Documented restriction (endpoint.go): filters and closers must not add or remove handlers and
+// must not touch handler queues. Assumed for the callbacks themselves.
+//@ functype Filter(hdr *Header) (matched bool, keep bool)
+//@   pure
+//@ functype Closer(err error)
+//@   pure
+//@ interface (s Stream) Close() (err error)
+//@   trusted
+//@   pure
+
+// Table invariant: a live slot holds an open, never-closed handler that knows its slot; so do its
+// queue (hence distinct slots hold distinct handlers with distinct queues).
+//@ guarded_by (e *endPoint) e.handlersMutex: e.handlers, e.handlers[*]
+//@   monitor forall i int {e.handlers[i]} :: 0 <= i && i < len(e.handlers) && e.handlers[i] != nil ==> allocated(e.handlers[i]) && allocated(e.handlers[i].consumer) && e.handlers[i].hclosed == 0 && e.handlers[i].consumer != nil && !e.handlers[i].consumer.chclosed && e.handlers[i].consumer.chowned && e.handlers[i].hslot == i && e.handlers[i].consumer.chslot == i
+
+//@ func (h *Handler) closeWith(err error)
+//@   tags C17
+//@   requires h.hclosed == 0 && !h.consumer.chclosed && h.consumer != nil
+//@   modifies h.hclosed, h.consumer.chclosed
+//@   ensures[C17] h.hclosed == 1 && h.consumer.chclosed
+//@   ghost_at_return h.hclosed := old(h.hclosed) + 1
+//@   opt spawn_effects yes
+
+//@ func (e *endPoint) RemoveHandler(id int) (err error)
+//@   tags C17
+//@   requires !e.handlersMutex.lockw
+//@   modifies everything
+//@   ensures !e.handlersMutex.lockw
+//@   ensures[C17] err == nil ==> 0 <= id && id < at_lock(len(e.handlers)) && at_lock(e.handlers[id]) != nil && at_unlock(e.handlers[id]) == nil && at_lock(e.handlers[id]).hclosed == 1 && at_lock(e.handlers[id]).consumer.chclosed
+//@   ensures[C17] err != nil ==> id < 0 || id >= at_lock(len(e.handlers)) || at_lock(e.handlers[id]) == nil
+//@   ensures[C17] at_unlock(len(e.handlers)) == at_lock(len(e.handlers)) && forall i int {at_unlock(e.handlers[i])} :: 0 <= i && i < at_lock(len(e.handlers)) && (i != id || err != nil) ==> at_unlock(e.handlers[i]) == at_lock(e.handlers[i])
+
+//@ func (e *endPoint) MakeHandler(f Filter, queue chan<- *Message, cl Closer) (result int)
+//@   tags C17
+//@   requires !e.handlersMutex.lockw
+//@   requires queue != nil && !queue.chclosed && !queue.chowned
+//@   modifies everything
+//@   ensures !e.handlersMutex.lockw
+//@   ensures[C17] 0 <= result && result < at_unlock(len(e.handlers)) && at_unlock(e.handlers[result]) != nil && at_unlock(e.handlers[result]).consumer == queue && at_unlock(e.handlers[result]).hclosed == 0
+//@   ensures[C17] result < at_lock(len(e.handlers)) ==> at_lock(e.handlers[result]) == nil
+//@   ensures[C17] forall i int {at_unlock(e.handlers[i])} :: 0 <= i && i < at_lock(len(e.handlers)) && i != result ==> at_unlock(e.handlers[i]) == at_lock(e.handlers[i])
+//@   call Unlock#1: ghost queue.chowned := true
+//@   call Unlock#1: ghost queue.chslot := result
+//@   call Unlock#1: ghost newHandler.hslot := result
+//@   loop 1:
+//@     invariant e.handlersMutex.lockw && e.handlers == at_lock(e.handlers) && (forall k int {e.handlers[k]} :: 0 <= k && k <= rangeindex && k < len(e.handlers) ==> e.handlers[k] != nil)
+//@     invariant forall k int {e.handlers[k]} :: 0 <= k && k < len(e.handlers) ==> e.handlers[k] == at_lock(e.handlers[k])
+
+//@ func (e *endPoint) Send(m Message) (err error)
+//@   tags C10
+//@   requires e.stream != nil && len(m.Payload) <= 4294967267
+//@   modifies e.stream.len, e.stream.writes, e.stream.data
+//@   ensures[C10] e.stream.accepting && len(m.Payload) == m.Header.Size ==> err == nil && e.stream.writes == old(e.stream.writes) + 1
+//@   ensures[C10] e.stream.writes <= old(e.stream.writes) + 1 || !e.stream.accepting
+
+// dispatch: messages are only offered to live (never closed) handlers of the table; a handler whose
+// filter returns keep == false is closed exactly once and leaves the table in the same critical section.
+//@ func (e *endPoint) dispatch(msg *Message) (err error)
+//@   tags C17 C10
+//@   requires !e.handlersMutex.lockw && msg != nil && e.stream != nil
+//@   modifies everything
+//@   ensures !e.handlersMutex.lockw
+//@   ensures[C17] at_unlock(len(e.handlers)) == at_lock(len(e.handlers))
+//@   ensures[C17] forall i int {at_unlock(e.handlers[i])} :: 0 <= i && i < at_lock(len(e.handlers)) ==> at_unlock(e.handlers[i]) == at_lock(e.handlers[i]) || (at_unlock(e.handlers[i]) == nil && at_lock(e.handlers[i]) != nil && at_lock(e.handlers[i]).hclosed == 1 && at_lock(e.handlers[i]).consumer.chclosed)
+//@   loop 1:
+//@     invariant e.handlersMutex.lockw && e.handlers == at_lock(e.handlers) && e.stream != nil && msg != nil
+//@     invariant forall k int {e.handlers[k]} :: 0 <= k && k < len(e.handlers) && e.handlers[k] != nil ==> allocated(e.handlers[k]) && allocated(e.handlers[k].consumer) && e.handlers[k].hclosed == 0 && e.handlers[k].consumer != nil && !e.handlers[k].consumer.chclosed && e.handlers[k].consumer.chowned && e.handlers[k].hslot == k && e.handlers[k].consumer.chslot == k
+//@     invariant forall k int {e.handlers[k]} :: 0 <= k && k < len(e.handlers) ==> e.handlers[k] == at_lock(e.handlers[k]) || (e.handlers[k] == nil && at_lock(e.handlers[k]) != nil && at_lock(e.handlers[k]).hclosed == 1 && at_lock(e.handlers[k]).consumer.chclosed)
+
+// closeWith: every live handler is handed to exactly one closeWith (spawned) and leaves the table.
+//@ func (e *endPoint) closeWith(err error) (ret error)
+//@   tags C17 C11
+//@   requires !e.handlersMutex.lockw && e.stream != nil
+//@   modifies everything
+//@   ensures !e.handlersMutex.lockw
+//@   ensures[C17] forall i int {at_unlock(e.handlers[i])} :: 0 <= i && i < at_lock(len(e.handlers)) ==> at_unlock(e.handlers[i]) == nil && (at_lock(e.handlers[i]) != nil ==> at_lock(e.handlers[i]).hclosed == 1 && at_lock(e.handlers[i]).consumer.chclosed)
+//@   loop 1:
+//@     invariant e.handlersMutex.lockw && e.handlers == at_lock(e.handlers)
+//@     invariant forall k int {e.handlers[k]} :: 0 <= k && k <= rangeindex && k < len(e.handlers) ==> e.handlers[k] == nil && (at_lock(e.handlers[k]) != nil ==> at_lock(e.handlers[k]).hclosed == 1 && at_lock(e.handlers[k]).consumer.chclosed)
+//@     invariant forall k int {e.handlers[k]} :: rangeindex < k && k < len(e.handlers) ==> e.handlers[k] == at_lock(e.handlers[k]) && (e.handlers[k] != nil ==> allocated(e.handlers[k]) && allocated(e.handlers[k].consumer) && e.handlers[k].hclosed == 0 && e.handlers[k].consumer != nil && !e.handlers[k].consumer.chclosed && e.handlers[k].hslot == k && e.handlers[k].consumer.chslot == k)
